@@ -505,3 +505,8 @@ var expectedParams = map[string]struct{ codecs, res, fps []string }{
 	"aac":  {[]string{"mp4a.40.2", "mp4a.40.2"}, nil, nil},
 	"opus": {[]string{"opus", "opus"}, nil, nil},
 }
+
+// H264Params returns the synthetic SPS / PPS of a parameter generation (1 or 2) for other drivers.
+func H264Params(gen int) ([]byte, []byte) {
+	return h264SPSGen[gen], h264PPSGen[gen]
+}
